@@ -12,6 +12,8 @@ namespace MT
 structure Hier where
   mro : ClassId → List ClassId
   bases : ClassId → List ClassId
+  /-- position of the class in the order of `(__module__, __qualname__)` (the key `RewriteLargeUnion` breaks ties with) -/
+  rank : ClassId → Nat := fun c => c
 
 def Hier.sub (h : Hier) (c d : ClassId) : Bool := (h.mro c).contains d
 
@@ -87,7 +89,21 @@ def toTupleOf (ts : List Ty) : Option Ty :=
 
 def Ty.clsId? : Ty → Option ClassId | .cls c => some c | _ => none
 
-/-- `RewriteLargeUnion.rewrite_Union` for a union with more than `n` members -/
+/-- the ancestors of the first member (other than `object`) that every member is a subclass of, in the order of that MRO -/
+def commonAncestors (h : Hier) (c0 : ClassId) (ts : List Ty) : List ClassId :=
+  (h.mro c0).filter (fun a => a != objectC && ts.all (fun t => match t with | .cls c => h.sub c a | _ => false))
+
+/-- those with no other member of the list below them -/
+def mostSpecific (h : Hier) (cs : List ClassId) : List ClassId :=
+  cs.filter (fun a => !cs.any (fun b => b != a && h.sub b a))
+
+/-- Python's `min(xs, key=rank)`: the first element with the least key -/
+def minByRank (h : Hier) : List ClassId → Option ClassId
+  | [] => none
+  | a :: as => some (as.foldl (fun m b => if h.rank b < h.rank m then b else m) a)
+
+/-- `RewriteLargeUnion.rewrite_Union` for a union with more than `n` members: a tuple of one element type, else the most
+    specific common ancestor of a union of classes — by name when multiple inheritance leaves several — else `Any` -/
 def largeUnionCollapse (h : Hier) (ts : List Ty) : Ty :=
   match toTupleOf ts with
   | some t => t
@@ -95,7 +111,7 @@ def largeUnionCollapse (h : Hier) (ts : List Ty) : Ty :=
     match ts with
     | .cls c0 :: _ =>
       if ts.all (fun t => t.clsId?.isSome) then
-        match (h.mro c0).find? (fun a => a != objectC && ts.all (fun t => match t with | .cls c => h.sub c a | _ => false)) with
+        match minByRank h (mostSpecific h (commonAncestors h c0 ts)) with
         | some a => .cls a
         | none => .any
       else .any
